@@ -800,7 +800,9 @@ impl<'a> Pr<'a> {
                             t.push(',');
                             t.push_str(&self.osp());
                         }
-                        if d.explicit_lower {
+                        // a dimension whose lower bound is 0 may be written without it next to dimensions that spell theirs
+                        let implicit_here = d.explicit_lower && *lo == 0 && i > 0 && (d.bounds.len() + i + d.name.len()) % 2 == 0;
+                        if d.explicit_lower && !implicit_here {
                             t.push_str(&format!("{}", lo));
                             t.push_str(&self.sp());
                             t.push_str(&self.kw("TO"));
